@@ -535,7 +535,7 @@ Section Calls.
     (* only the owner changes on the Linux side: the nodes stay related *)
     destruct (hrel_get_cases c FH) as [[Ew El']|(nw & nl & Ew & El' & Hn)]; [congruence|].
     rewrite El in El'. injection El' as <-.
-    assert (Hupd : forall hw hl, hrel hw hl -> get hw c = Some nw -> hrel hw (upd hl c (set_meta n (with_owner (node_meta n) uid gid)))).
+    assert (Hupd : forall hw hl, hrel hw hl -> get hw c = Some nw -> hrel hw (upd hl c (set_meta n (chown_meta n (v_user vl) uid gid)))).
     { clear -Hn. intros hw hl H. revert c. induction H as [|a b hw hl Hab H IH]; intros c E; [destruct c; discriminate|].
       destruct c; cbn [upd].
       - cbn in E. injection E as ->. constructor; [|exact H]. destruct Hn; constructor. assumption.
@@ -687,7 +687,8 @@ Section Calls.
           if negb (check_permission m (if has om OpenTruncate then N.lor om OpenWrite else om) (v_user vw))
           then (sw, inl (RFail EPermDenied))
           else if has om OpenCreateExcl then (sw, inl (RFail EFileExists))
-          else (with_heap sw (upd (f_heap sw) c (NFile (if has om OpenTruncate then [] else dt) k i m)),
+          else (with_heap sw (upd (f_heap sw) c (NFile (if has om OpenTruncate then [] else dt) k i
+                                                   (if has om OpenTruncate then drop_privs (v_user vw) m else m))),
                 inr (new_handle c vi nmw 0%Z om))
       | Some (NDir _ m) =>
           if has om OpenCreateExcl then (sw, inl (RFail EFileExists))
@@ -701,7 +702,8 @@ Section Calls.
           if negb (check_permission m (if has om OpenTruncate then N.lor om OpenWrite else om) (v_user vl))
           then (sl, inl (RFail EPermDenied))
           else if has om OpenCreateExcl then (sl, inl (RFail EFileExists))
-          else (with_heap sl (upd (f_heap sl) c (NFile (if has om OpenTruncate then [] else dt) k i m)),
+          else (with_heap sl (upd (f_heap sl) c (NFile (if has om OpenTruncate then [] else dt) k i
+                                                   (if has om OpenTruncate then drop_privs (v_user vl) m else m))),
                 inr (new_handle c vi (SLASH :: r) 0%Z om))
       | Some (NDir _ m) =>
           if has om OpenCreateExcl then (sl, inl (RFail EFileExists))
